@@ -3,6 +3,7 @@ package c09
 import (
 	"context"
 	"fmt"
+	"runtime"
 	"sort"
 	"strings"
 	"sync"
@@ -253,6 +254,15 @@ type progStats struct {
 	fired, failedCalls, runFailed            int // injected faults that fired; Run/RunHandlers calls that returned one; of these Run itself
 	runRefused                               int // second Run calls after a failed Run that the router refused
 	afterRetry, dead                         int // judged handlers that a failed call had left unstarted; handlers started by a Run that failed (not judged)
+	// classes rejected / reuse
+	dupRejected, dupOnPending  int // duplicate-name calls that panicked with DuplicateHandlerNameError; of these on a not yet started handler that had middlewares of its own
+	earlyRunH, earlyStop       int // RunHandlers before Run that returned an error; Stop on a not started handler that panicked
+	rejectedObs                int // judged handlers with own middlewares that a rejected call had targeted before their start
+	reuseRounds                int // names registered again after their handler was stopped
+	reuseEarly, reuseLate      int // ... with AddHandler+AddMiddleware done before / after the old handler's Stopped() was closed
+	reuseObs, reuseJudged      int // judged re-registered handlers (Obs: with own middlewares and a predecessor that had own middlewares)
+	logParks, pollFails, polls int // logger calls of router goroutines held back; failed AddHandler attempts of the retrying goroutine; Router.Handlers() polls
+	bystanders                 int // judged handlers that were registered but not started while a handler with a related name stopped
 }
 
 func (a *progStats) add(b progStats) {
@@ -274,6 +284,43 @@ func (a *progStats) add(b progStats) {
 	a.runRefused += b.runRefused
 	a.afterRetry += b.afterRetry
 	a.dead += b.dead
+	a.dupRejected += b.dupRejected
+	a.dupOnPending += b.dupOnPending
+	a.earlyRunH += b.earlyRunH
+	a.earlyStop += b.earlyStop
+	a.rejectedObs += b.rejectedObs
+	a.reuseRounds += b.reuseRounds
+	a.reuseEarly += b.reuseEarly
+	a.reuseLate += b.reuseLate
+	a.reuseObs += b.reuseObs
+	a.reuseJudged += b.reuseJudged
+	a.logParks += b.logParks
+	a.pollFails += b.pollFails
+	a.polls += b.polls
+	a.bystanders += b.bystanders
+}
+
+// tryAdd calls AddHandler / AddNoPublisherHandler and recovers a panic: (handle, nil) when the handler was added,
+// (nil, panic value) when the call panicked.
+func tryAdd(r *message.Router, noPub bool, name, topicIn string, sub message.Subscriber, topicOut string, pub message.Publisher, hf message.HandlerFunc) (h *message.Handler, pv any) {
+	defer func() {
+		if x := recover(); x != nil {
+			h, pv = nil, x
+		}
+	}()
+	if noPub {
+		return r.AddNoPublisherHandler(name, topicIn, sub, func(m *message.Message) error {
+			_, err := hf(m)
+			return err
+		}), nil
+	}
+	return r.AddHandler(name, topicIn, sub, topicOut, pub, hf), nil
+}
+
+// isDupErr: the documented panic value of AddHandler for a taken name.
+func isDupErr(pv any, name string) bool {
+	d, ok := pv.(message.DuplicateHandlerNameError)
+	return ok && d.HandlerName == name
 }
 
 // runProgram executes p against a fresh Router and judges every message. It returns the observations,
@@ -288,7 +335,12 @@ func runProgram(p *program, uid string, pg *progress) (obs []observation, st pro
 		}
 	}
 
-	r, err := message.NewRouter(message.RouterConfig{CloseTimeout: time.Hour}, watermill.NopLogger{})
+	var logger watermill.LoggerAdapter = watermill.NopLogger{}
+	lc := &logCtl{}
+	if p.HasReuse {
+		logger = harnessLogger{c: lc}
+	}
+	r, err := message.NewRouter(message.RouterConfig{CloseTimeout: time.Hour}, logger)
 	if err != nil {
 		return nil, st, nil, "NewRouter: " + err.Error()
 	}
@@ -323,6 +375,10 @@ func runProgram(p *program, uid string, pg *progress) (obs []observation, st pro
 			maxAttempts += f.Times
 		}
 	}
+	ownCount := make([]int, nH)       // handler-level middlewares registered so far
+	rejectedHit := make([]bool, nH)   // a rejected call targeted this handler before it was started
+	bystander := make([]bool, nH)     // registered, not started, while another handler stopped
+	leak := false                     // the router is in a state in which Close would wait for a handler that never starts: leave it alone
 	dead := make([]bool, nH)          // started by a Run call that then failed: Run cancels their context, never judged
 	pendingAtFail := make([]bool, nH) // added but not started when a failed call returned
 	faultNote := func() string {
@@ -397,7 +453,14 @@ func runProgram(p *program, uid string, pg *progress) (obs []observation, st pro
 		}
 		obs = append(obs, o)
 		st.events += len(got) + len(e.SDec) + len(o.GotPub)*len(e.PDec)
-		judge(p, h, e, o, func(clause, format string, a ...any) {
+		prefix := ""
+		switch {
+		case e.Reused:
+			prefix = "reuse-"
+		case rejectedHit[h]:
+			prefix = "rejected-"
+		}
+		judge(p, h, e, o, prefix, func(clause, format string, a ...any) {
 			fail(clause, format+"%s", append(a, faultNote())...)
 		})
 		return inconcl == ""
@@ -498,6 +561,7 @@ steps:
 				r.AddMiddleware(ms...)
 			} else {
 				handles[s.H].AddMiddleware(ms...)
+				ownCount[s.H] += len(ms)
 			}
 			if s.Alias && s.Poison {
 				st.poisoned++
@@ -609,6 +673,159 @@ steps:
 			if ok = runHandlers(0); !ok {
 				break steps
 			}
+		case opDupAdd:
+			// the same registration made twice: same name, topic, subscriber and publisher (the handler function is a decoy
+			// that leaves a foreign mark in the trace should it ever run)
+			hs := p.Handlers[s.H]
+			pending := handles[s.H] != nil && !vlib.IsClosed(handles[s.H].Started())
+			h2, pv := tryAdd(r, s.Variant, hs.Name, topicIn(s.H), subs[s.H], topicOut(s.H), pubs[s.H], rec.handler(900+s.H, 0))
+			switch {
+			case h2 != nil:
+				inconcl = fmt.Sprintf("a second handler named %q was accepted (no DuplicateHandlerNameError): what the two handlers run is not specified | program: %s", hs.Name, desc)
+			case !isDupErr(pv, hs.Name):
+				inconcl = fmt.Sprintf("duplicate registration of %q panicked with %T %v, not with DuplicateHandlerNameError | program: %s", hs.Name, pv, pv, desc)
+			}
+			if inconcl != "" {
+				ok, leak = false, true
+				break steps
+			}
+			st.dupRejected++
+			if pending {
+				rejectedHit[s.H] = true
+				if ownCount[s.H] > 0 {
+					st.dupOnPending++
+				}
+			}
+		case opEarlyRunH:
+			if err := r.RunHandlers(ctx); err == nil {
+				inconcl = fmt.Sprintf("RunHandlers before Run returned nil | program: %s", desc)
+				ok, leak = false, true
+				break steps
+			}
+			st.earlyRunH++
+		case opEarlyStop:
+			var pv any
+			func() {
+				defer func() { pv = recover() }()
+				handles[s.H].Stop()
+			}()
+			if pv == nil {
+				inconcl = fmt.Sprintf("Stop of the not yet started handler h%d did not panic: whether it is started later is not specified | program: %s", s.H, desc)
+				ok, leak = false, true
+				break steps
+			}
+			st.earlyStop++
+			rejectedHit[s.H] = true
+		case opReuse:
+			old := handles[s.H]
+			hs := p.Handlers[s.N]
+			var own []message.HandlerMiddleware
+			for _, id := range s.IDs {
+				own = append(own, rec.middleware(id))
+			}
+			type regResult struct {
+				h     *message.Handler
+				early bool // AddHandler and AddMiddleware had returned while old.Stopped() was still open
+				pv    any
+			}
+			// the re-registration: AddHandler with the old name, at once followed by AddMiddleware on the new handler
+			register := func() regResult {
+				h, pv := tryAdd(r, hs.NoPub, hs.Name, topicIn(s.N), subs[s.N], topicOut(s.N), pubs[s.N], rec.handler(s.N, hs.Out))
+				if h == nil {
+					return regResult{pv: pv}
+				}
+				if len(own) > 0 {
+					h.AddMiddleware(own...)
+				}
+				return regResult{h: h, early: !vlib.IsClosed(old.Stopped())}
+			}
+			stop := func() {
+				if s.StopBy == "subclose" {
+					subs[s.H].Close()
+				} else {
+					old.Stop()
+				}
+			}
+			var rr regResult
+			pg.set(desc, fmt.Sprintf("reuse of the name of h%d (%s): stopping it and registering the name again", s.H, s.Mode), false)
+			switch s.Mode {
+			case modeStep:
+				// The logger parks every call that a router goroutine makes through the logger the Router derived (With) for the
+				// stopping handler: only that handler's goroutine does. While it is parked nothing writes the handler table, the
+				// caller reads Router.Handlers() (which takes no lock) and takes the name as soon as it is no longer listed.
+				ep := lc.arm(epStep, 0, topicIn(s.H))
+				stop()
+				for rr.h == nil && rr.pv == nil {
+					select {
+					case pc := <-ep.arrive:
+						st.polls++
+						if _, taken := r.Handlers()[hs.Name]; !taken {
+							rr = register()
+						}
+						close(pc.release)
+					case <-old.Stopped():
+						rr = register()
+					}
+				}
+				lc.disarm(ep)
+				parks, _ := ep.stats()
+				st.logParks += parks
+			case modePoll, modePollSlow:
+				// A goroutine retries AddHandler until the DuplicateHandlerNameError is gone. poll-slow: the logger holds every
+				// call of a router goroutine until the retrying goroutine has made a few more attempts or is done.
+				mode, every := epYield, 0
+				if s.Mode == modePollSlow {
+					mode, every = epSlow, 2+s.N%5
+				}
+				ep := lc.arm(mode, every, "")
+				ch := make(chan regResult, 1)
+				go func() {
+					after := 0
+					for {
+						x := register()
+						if x.h == nil && isDupErr(x.pv, hs.Name) && after < 5000 {
+							ep.attempt()
+							if vlib.IsClosed(old.Stopped()) {
+								after++
+							}
+							runtime.Gosched()
+							continue
+						}
+						lc.disarm(ep)
+						ch <- x
+						return
+					}
+				}()
+				stop()
+				rr = <-ch
+				parks, fails := ep.stats()
+				st.logParks += parks
+				st.pollFails += fails
+			default: // modeWait
+				stop()
+				<-old.Stopped()
+				rr = register()
+			}
+			if rr.h == nil {
+				inconcl = fmt.Sprintf("the name %q could not be registered again after its handler was stopped: %v | program: %s", hs.Name, rr.pv, desc)
+				ok, leak = false, true
+				break steps
+			}
+			handles[s.N] = rr.h
+			ownCount[s.N] = len(own)
+			st.reuseRounds++
+			if rr.early {
+				st.reuseEarly++
+			} else {
+				st.reuseLate++
+			}
+			pg.set(desc, fmt.Sprintf("waiting for Stopped() of h%d", s.H), false)
+			<-old.Stopped()
+			for h := 0; h < nH; h++ {
+				if h != s.N && handles[h] != nil && !delivered[h] && !vlib.IsClosed(handles[h].Started()) {
+					bystander[h] = true
+				}
+			}
 		}
 	}
 	// second round: RunHandlers again (idempotent), then one more message to every handler whose
@@ -619,7 +836,7 @@ steps:
 			inconcl = fmt.Sprintf("repeated RunHandlers: %v | program: %s", err, desc)
 		} else {
 			for h := 0; h < nH; h++ {
-				if ex[h].Started && ex[h].Stable && delivered[h] && !dead[h] {
+				if ex[h].Started && ex[h].Stable && !ex[h].Stopped && delivered[h] && !dead[h] {
 					st.second++
 					if !deliver(h, 1) {
 						break
@@ -663,6 +880,18 @@ steps:
 		if startPhase(p, h) > 0 {
 			st.late++
 		}
+		if rejectedHit[h] && e.Own > 0 {
+			st.rejectedObs++
+		}
+		if e.Reused {
+			st.reuseJudged++
+			if e.PredOwn && e.Own > 0 {
+				st.reuseObs++
+			}
+		}
+		if bystander[h] {
+			st.bystanders++
+		}
 	}
 	rec.mu.Lock()
 	st.wraps = rec.wraps
@@ -672,6 +901,10 @@ steps:
 	}
 
 	// shut the router down so goroutines do not pile up across programs
+	if leak {
+		pg.set("", "", false)
+		return obs, st, viol, inconcl
+	}
 	pg.set(desc, "Router.Close", false)
 	if err := r.Close(); err != nil && inconcl == "" {
 		inconcl = fmt.Sprintf("Router.Close: %v | program: %s", err, desc)
@@ -690,10 +923,10 @@ const poisonBase = 9000
 
 func isRouterLevel(p *program, id int) bool {
 	for _, s := range p.Steps {
-		if s.Op == opMW {
+		if t, ok := s.mwTarget(); ok {
 			for _, x := range s.IDs {
 				if x == id {
-					return s.H < 0
+					return t < 0
 				}
 			}
 		}
@@ -710,6 +943,10 @@ func startPhase(p *program, h int) int {
 			if s.H == h {
 				return ph
 			}
+		case opReuse:
+			if s.N == h {
+				return ph
+			}
 		case opRun, opRunH:
 			ph++
 		}
@@ -719,13 +956,16 @@ func startPhase(p *program, h int) int {
 
 func owner(p *program, id int) string {
 	for _, s := range p.Steps {
-		if s.Op == opMW {
+		if t, ok := s.mwTarget(); ok {
 			for _, x := range s.IDs {
 				if x == id {
-					if s.H < 0 {
+					if t < 0 {
 						return "router-level"
 					}
-					return fmt.Sprintf("h%d", s.H)
+					if p.HasReuse {
+						return fmt.Sprintf("h%d %q", t, p.Handlers[t].Name)
+					}
+					return fmt.Sprintf("h%d", t)
 				}
 			}
 		}
@@ -737,7 +977,9 @@ func owner(p *program, id int) string {
 }
 
 // judge compares one observation with the model and names the clause that failed.
-func judge(p *program, h int, e expect, o observation, fail func(clause, format string, a ...any)) {
+// prefix ("reuse-", "rejected-" or "") is put in front of the mw-* clause ids for handlers that took over a stopped handler's name /
+// that a rejected call had targeted before their start.
+func judge(p *program, h int, e expect, o observation, prefix string, fail func(clause, format string, a ...any)) {
 	name := p.Handlers[h].Name
 	if strings.Join(o.GotMW, " ") != strings.Join(o.WantMW, " ") {
 		clause := "mw-order"
@@ -792,6 +1034,9 @@ func judge(p *program, h int, e expect, o observation, fail func(clause, format 
 			clause, detail = "handler-func", fmt.Sprintf("handler function calls=%d wrong=%q", hcalls, wrongH)
 		case len(dup) > 0:
 			clause, detail = "mw-duplicate", "middleware(s) entered/left more than once: "+strings.Join(dup, " ")
+		}
+		if strings.HasPrefix(clause, "mw-") {
+			clause = prefix + clause
 		}
 		fail(clause, "handler h%d (%q): %s; expected trace %v, observed %v", h, name, detail, o.WantMW, o.GotMW)
 		return
